@@ -131,6 +131,15 @@ def spaces(tier, seed):
             hi12.append({"kind": "one", "m": "zncc", "w": w, "s": s,
                          "spec": {"ny": w + 4, "nx": w + 5, "dmin": -1, "dmax": 2, "seed": seed, "gain": 0.125,
                                   "offset": 20000, "origin": _origin(k)}})
+    # scale instances (one per accumulation the implementation may keep in float32): a 12-bit weakly textured line of
+    # 1300 columns and 16-bit strips of 420 columns / 300 rows - running sums of window statistics along a row or a
+    # column exceed 2^24 long before the far end, where the float64 reference must still be met
+    scale = []
+    for w, ny, nx, gain, offset in ((5, 7, 1300, 3, 3000), (3, 5, 420, 600, 0), (5, 300, 9, 3, 60000),
+                                    (3, 300, 7, 600, 0)):
+        scale.append({"kind": "one", "m": "zncc", "w": w, "s": 1,
+                      "spec": {"ny": ny, "nx": nx, "dmin": -1, "dmax": 1, "seed": seed, "gain": gain,
+                               "offset": offset, "origin": [0, 0]}})
     # order by interval length over the whole product (simplest first)
     lvl0.sort(key=lambda c: (c["spec"]["dmax"] - c["spec"]["dmin"]))
 
@@ -242,6 +251,8 @@ def spaces(tier, seed):
     return [
         {"name": "measure x window x subpix x shape x interval (mono, no mask)", "level": 0, "cases": lvl0},
         {"name": "radiometric scale: 12-bit (bright weakly textured / full range, subpix 1) and reflectance-like 2^-20 (zncc, subpix 1/2/4)", "level": 1, "cases": hi12},
+        {"name": "scale: zncc on long 12-bit lines (1300 columns) and 16-bit strips (420 columns, 300 rows)", "level": 1,
+         "cases": scale, "chunk": 1},
         {"name": "alphabet images: all 1x2 pairs (w=1), de Bruijn columns (w=3)", "level": 0, "cases": alpha,
          "chunk": 1},
         {"name": "2-band images x selected band x right band order x scalar/constant grid", "level": 1, "cases": bands},
